@@ -23,7 +23,7 @@ RULE = ("scenario = MultiAntennaArray (1-5 antennas, delay vector all-zero / uns
 COMPONENTS = {"real": ["setigen.voltage.antenna.MultiAntennaArray / Antenna", "setigen.voltage.data_stream.DataStream / "
                        "BackgroundDataStream"], "stub": ["entropy seam (tripwire only)"]}
 ASSUMPTIONS = C10.ASSUMPTIONS
-PROBES = ["complex_background", "noise_estimate_refreshed_mid_observation", "delays_omitted", "delays_all_zero", "delays_unsorted", "delays_repeated", "cache_carry_over",
+PROBES = ["delays_argument_reused_by_caller", "complex_background", "noise_estimate_refreshed_mid_observation", "delays_omitted", "delays_all_zero", "delays_unsorted", "delays_repeated", "cache_carry_over",
           "reset_between_requests", "request_just_above_max_delay", "two_pols", "rejected_request"]
 
 
@@ -78,6 +78,8 @@ def generate(rng, tier):
             # a stream's noise estimate is refreshed in mid-observation (it draws samples, but restores the clock)
             ops.append({"op": "update_noise", "which": rng.choice(["bg", "bg", "own"]), "pol": rng.randrange(2), "ant": rng.randrange(8),
                         "m": rng.choice([1, 10, 100, 1000])})
+        elif r < 0.785:
+            ops.append({"op": "reuse_delays_arg", "add": rng.choice([0, 1, 5])})
         elif r < 0.8:
             ops.append({"op": "set_time", "t": rng.choice([0.0, 4.0, 100.5]) if dyadic else rng.choice([0.0, 7.3, 100.0])})
         elif r < 0.9:
@@ -257,6 +259,17 @@ def execute(sc, ctx):
             ctx.hit("noise_estimate_refreshed_mid_observation" if not first else "noise_estimate_refreshed_before_observation")
             ctx.check((st.t_start, st.start_obs) == before, "clock", "C15/clock/update_noise_moves_clock",
                       lambda: "before %r after %r" % (before, (st.t_start, st.start_obs)))
+        elif op["op"] == "reuse_delays_arg":
+            # the caller re-uses the very array (or list) the delays were passed in for something else; the
+            # array keeps the delays it was configured with
+            if arg is not None and len(arg):
+                if isinstance(arg, np.ndarray):
+                    arg[:] = arg[::-1].copy() + op["add"]
+                else:
+                    arg.reverse()
+                    arg[0] += op["add"]
+                ctx.hit("delays_argument_reused_by_caller")
+            ctx.event("reuse_delays_arg")
         elif op["op"] == "reject_get":
             try:
                 arr.get_samples(op["n"])
